@@ -15,6 +15,11 @@ import (
 
 const defaultMaxRandValue = 10
 
+// maxRandStringLength bounds the length randString accepts. The length may come from a variable, that is from a
+// response of the target: an absurd value must be an error of the step, not an allocation that panics
+// ("makeslice: len out of range") or exhausts the memory of the generator.
+const maxRandStringLength = 1 << 24
+
 func init() {
 	rand.New(rand.NewSource(time.Now().UnixNano()))
 }
@@ -130,6 +135,9 @@ func randString(cnt any, letters string) (string, error) {
 	}
 	if n < 0 {
 		return "", fmt.Errorf("randString length should not be negative, got %d", n)
+	}
+	if n > maxRandStringLength {
+		return "", fmt.Errorf("randString length should not exceed %d, got %d", maxRandStringLength, n)
 	}
 	return str.RandStringRunes(n, letters), nil
 }
